@@ -35,7 +35,14 @@ CONFIG = dict(
                "error and a struct value. User code inside Service.checkExpired is in the service model: the completion callback of a timed-out request may "
                "issue a follow-up request from inside the check timer's own callback (SOp.reqAgain); proved for all service histories: no tick creates a "
                "timer (svc_tick_creates_no_timer), the follow-up is in the table and covered by the already owned, re-armed timer "
-               "(svc_followup_request_is_covered); the `svc` run issues such requests, lets them time out, answers or drops the follow-up.",
+               "(svc_followup_request_is_covered); the `svc` run issues such requests, lets them time out, answers or drops the follow-up. "
+               "'Again and again' at the service level with a bound (svc_check_timer_due_within_period, by the new invariant DueSoon over all service "
+               "histories): while a request is outstanding the owned check timer's runtime timer is never set for more than one period ahead, and after "
+               "one period + the expiry goroutine its object is in the loop's queue; the spec monitor evaluates exactly this on the real Service "
+               "(request outstanding, >= 1 s passes, no tick => C14/check-timer-stopped; request outstanding and timerCheckExpired == 0 => "
+               "C14/request-without-check-timer). The selector plumbing of StandardRunService (the timer queue joins the MultiSelector under the name "
+               "\"timer\" after Start()) is exercised, not modelled: op `usel` hooks user selectors into the running loop under built-in and repeated "
+               "names from the owner and from a foreign goroutine; the model's single consumer must go on draining.",
     level_note="Partial with respect to the Go runtime: time.AfterFunc/Timer.Stop semantics (function runs once, on another goroutine, not before the "
                "duration; virtualised by testing/synctest), FIFO wake-up of senders blocked on the full queue channel (the model's queue is an unbounded "
                "list: its elements beyond 999 are the blocked senders; that a sender which has passed its checks may send later is no longer assumed away: "
@@ -48,7 +55,9 @@ CONFIG = dict(
                "checkExpired is not in the service model (which of the other expired entries are dropped before the panic depends on Go's map iteration "
                "order; at manager level the panic is covered: panic_leaves_rest_alone). The value a callback panics with is not in the model "
                "(recover() takes every value, the handler only prints it): that Mgr.do contains every kind of value is a behavioural tie (string, error, "
-               "runtime error, struct on every run), runtime.Goexit and fatal errors inside a callback are outside.",
+               "runtime error, struct on every run), runtime.Goexit and fatal errors inside a callback are outside. utils/sche.MultiSelector "
+               "(dynamic select set, dirty flag, chanDirt wake-up) is not modelled: that the timer selector stays in the select set whatever other "
+               "selectors are added (op usel) is a behavioural tie.",
     lean_targets=["Cell2v.Props.C14", "modeld_c14"],
     driver="modeld_c14",
     driver_root="Cell2v.Driver.C14",
@@ -62,7 +71,8 @@ CONFIG = dict(
                        "repeating_fires_infinitely_often", "oneshot_fires_exactly_once_eventually", "schedule_prefix_is_history",
                        "foreign_creator_leaks_entry",
                        "expire_gap_harmless", "expire_gap_receive_and_other_expiry", "panic_leaves_rest_alone",
-                       "svc_tick_creates_no_timer", "svc_followup_request_is_covered"],
+                       "svc_tick_creates_no_timer", "svc_followup_request_is_covered",
+                       "svc_check_timer_due_within_period"],
     harness_pkg="./c14",
     mode="accept",
     reset_prefix="reset",
@@ -84,7 +94,10 @@ CONFIG = dict(
          "timer; Stop), 20% of the cases on a real StandardRunService (ops posted to its loop; every callback must run on the loop goroutine), one "
          "queue-overflow case (1005 timers > channel capacity 999), a second overflow case in which Cancel and Mgr.Stop "
          "arrive while senders are blocked on the full channel (their objects still reach the queue: cancelled one skipped, the others called after Stop), "
-         "one malformed stream; corpus first. A tenth of the cases: the run service's loop is parked in a posted closure while timers expire (their objects "
+         "one malformed stream; corpus first. Run-service cases also get `usel name=<n> by=owner|foreign` ops (at the start of a third of the random cases, "
+         "among the random ops, before the owner gets stuck in the busy-stop cases): a user selector with a channel of its own joins the loop of the "
+         "running service under the name timer / event / sheduler / c14probe / empty / the same private name twice; it must be served on the loop "
+         "(served=1) and every timer must go on firing there (spec: queue-not-drained, oneshot-lost, repeat-not-rearmed on the following ops). A tenth of the cases: the run service's loop is parked in a posted closure while timers expire (their objects "
          "pile up in the queue), then StandardRunService.Stop is called from a foreign goroutine while the loop is still stuck, or after it "
          "resumed, or by the owner itself (no callback may run inside Stop / on the caller's goroutine; how many queued objects the exiting "
          "loop still takes is left open, q=?). Stale cancels (already fired one-shot, 0, never issued id, twice) are followed by new "
@@ -96,7 +109,8 @@ CONFIG = dict(
          "(actor + ScheDisp run service) issues requests to a recording peer, gets them answered or lets them time out, idles across several virtual "
          "seconds and gets busy again; observed per step: callback log of every timer object of the service's manager, ids held in Mgr.timers, "
          "Service.timerCheckExpired, request-table size (spec: a check timer the service gave up never fires again and is gone from the manager; "
-         "at most the one owned timer is alive); the model side of this run is the Lean service model TimerSvc (req / reqAgain / resp / tick / expire / advance). "
+         "at most the one owned timer is alive; a non-empty request table has an owned check timer; a stretch of >= 1 s that starts with a non-empty "
+         "request table contains at least one tick of the check timer - this clause needs no white-box probe); the model side of this run is the Lean service model TimerSvc (req / reqAgain / resp / tick / expire / advance). "
          "A third of the requests carry a completion callback that, when called with ErrTimeout from inside checkExpired, issues a follow-up request "
          "(tag+1000), which is answered, answered too late, or times out in turn; a third of the cases end with a request that is never answered and retried once. A case is non-trivial when the observation "
          "contains a callback log or a non-empty queue; distinct = distinct (op, observation) pairs",
